@@ -246,26 +246,45 @@ pub fn check_history(h: &History, rep: &mut Report, which: &str) {
                 return;
             }
         }
-        // revert(j) then changeset(No) on S_0 == S_{n-j}
+        // revert(j), then the changeset of what is left, applied to S_0, must give S_{n-j}
+        // (what a bundle built from only the first n-j groups gives, by C16), under both settings
         for j in 0..=n_groups {
-            let mut b = sr.bundle.clone();
-            let r = guarded(|| {
-                b.revert(j);
-                b.to_plain_state(OriginalValuesKnown::No)
-            });
-            match r {
-                Err(p) => {
-                    report_panic(rep, "C17", &p, json!({"history": hj(), "revert_j": j}));
-                    return;
-                }
-                Ok(cs) => {
-                    let mut p = s0.clone();
-                    let mut codes = refrun.codes.clone();
-                    apply_changeset(&mut p, &mut codes, &cs);
-                    rep.count("bundle_revert_j_checked");
-                    if let Some(d) = p.diff(&snaps[n_groups - j]) {
-                        rep.violation(format!("C17/bundle-after-revert-differs/{}", p.diff_kind(&snaps[n_groups - j])), format!("revert({j}) of {n_groups} groups: S_0 + changeset vs S_{}: {d}", n_groups - j), json!({"history": hj(), "revert_j": j}));
+            for (known, kn) in [(OriginalValuesKnown::Yes, "known"), (OriginalValuesKnown::No, "not-known")] {
+                let mut b = sr.bundle.clone();
+                let r = guarded(|| {
+                    b.revert(j);
+                    b.to_plain_state(known)
+                });
+                match r {
+                    Err(p) => {
+                        report_panic(rep, "C17", &p, json!({"history": hj(), "revert_j": j}));
                         return;
+                    }
+                    Ok(cs) => {
+                        let mut p = s0.clone();
+                        let mut codes = refrun.codes.clone();
+                        apply_changeset(&mut p, &mut codes, &cs);
+                        rep.count("bundle_revert_j_checked");
+                        let want = &snaps[n_groups - j];
+                        if let Some(d) = p.diff(want) {
+                            // was the differing account's storage wiped in one of the reverted groups?
+                            // (BundleAccount::revert cannot rebuild original values it dropped at the wipe)
+                            let a = p.diff_addr(want);
+                            let crossed_wipe = a.is_some_and(|a| (n_groups - j..n_groups).any(|g| reverts.storage[g].iter().any(|s| s.wiped && s.address == a)));
+                            let kind = p.diff_kind(want);
+                            let sig = if crossed_wipe && kind == "storage" { format!("C17/bundle-after-revert-differs/{kn}/storage/reverted-across-a-storage-wipe-of-that-account") } else { format!("C17/bundle-after-revert-differs/{kn}/{kind}") };
+                            if std::env::var("VERIF_DEBUG").is_ok() {
+                                if let Some(a) = a {
+                                    eprintln!("mono account {:?}", sr.bundle.state.get(&a));
+                                    for g in 0..n_groups {
+                                        eprintln!("revert group {g}: {:?}", sr.bundle.reverts[g].iter().find(|(x, _)| *x == a));
+                                    }
+                                    eprintln!("after revert({j}): {:?}", b.state.get(&a));
+                                }
+                            }
+                            rep.violation(sig, format!("revert({j}) of {n_groups} groups: S_0 + changeset({kn}) vs S_{}: {d}", n_groups - j), json!({"history": hj(), "revert_j": j}));
+                            return;
+                        }
                     }
                 }
             }
@@ -274,6 +293,16 @@ pub fn check_history(h: &History, rep: &mut Report, which: &str) {
     }
 
     if which == "C18" {
+        if std::env::var("VERIF_DEBUG").is_ok() {
+            for (i, w) in refrun.worlds.iter().enumerate() {
+                for (a, acc) in w.accounts.iter() {
+                    if addr_hex(a).starts_with("0xd3") || addr_hex(a).ends_with("faf8cf") {
+                        eprintln!("ref after step {i}: {} bal {} nonce {} code {}B storage {:?}", addr_hex(a), acc.balance, acc.nonce, acc.code.len(), acc.storage);
+                    }
+                }
+            }
+            eprintln!("ref outcomes: {:?}", refrun.outcomes.iter().map(|o| o.to_json().to_string()).collect::<Vec<_>>());
+        }
         if !h.all_reverts_retained() || n_groups < 2 {
             rep.count("histories_not_splittable");
             return;
@@ -284,66 +313,116 @@ pub fn check_history(h: &History, rep: &mut Report, which: &str) {
         }
         let mono = &sr.bundle;
         for split in 1..n_groups {
-            // run again, taking the bundle after merge #split
-            let db = RefDB::new(h.world.clone(), h.spec);
-            let mut st = new_state(db, h.spec, true, None);
-            let mut outs = vec![];
-            let mut a: Option<BundleState> = None;
-            let mut merges = 0;
-            let mut failed = false;
-            for (i, s) in h.steps.iter().enumerate() {
-                match guarded(|| exec_step_on_state(&mut st, h, s, &mut outs)) {
-                    Ok(Ok(())) => {}
-                    Ok(Err(_)) => {
-                        failed = true;
-                        break;
+          for mode in ["separate-states", "one-state-continued"] {
+            let (a, b): (BundleState, BundleState) = if mode == "separate-states" {
+                // A: a State over D runs groups 1..split; B: a fresh State over D' = S_split runs the rest
+                let cut = sr.merge_points[split - 1];
+                let h1 = History { spec: h.spec, world: h.world.clone(), block: h.block.clone(), steps: h.steps[..=cut].to_vec() };
+                let h2 = History { spec: h.spec, world: h.world.clone(), block: h.block.clone(), steps: h.steps[cut + 1..].to_vec() };
+                let ref1 = RefRun { outcomes: vec![], worlds: refrun.worlds[..=cut].to_vec(), codes: refrun.codes.clone(), panic: None, skipped: false };
+                let ref2 = RefRun { outcomes: vec![], worlds: refrun.worlds[cut + 1..].to_vec(), codes: refrun.codes.clone(), panic: None, skipped: false };
+                let Some(r1) = run_on_state(&h1, &ref1, true, None, false, rep, "C18", "split-first-half", &hj) else { return };
+                let Some(r2) = run_on_state(&h2, &ref2, true, Some((BundleState::default(), refrun.worlds[cut].clone())), false, rep, "C18", "split-second-half", &hj) else { return };
+                let mut outs = r1.outcomes.clone();
+                outs.extend(r2.outcomes.iter().cloned());
+                if outs != refrun.outcomes {
+                    rep.count("splits_skipped(execution differs from reference; see C15)");
+                    continue;
+                }
+                (r1.bundle, r2.bundle)
+            } else {
+                // one State runs everything; its bundle is taken after merge #split and at the end
+                let db = RefDB::new(h.world.clone(), h.spec);
+                let mut st = new_state(db, h.spec, true, None);
+                let mut outs = vec![];
+                let mut a: Option<BundleState> = None;
+                let mut merges = 0;
+                let mut failed = false;
+                for (i, s) in h.steps.iter().enumerate() {
+                    match guarded(|| exec_step_on_state(&mut st, h, s, &mut outs)) {
+                        Ok(Ok(())) => {}
+                        Ok(Err(_)) => {
+                            failed = true;
+                            break;
+                        }
+                        Err(p) => {
+                            report_panic(rep, "C18", &p, json!({"history": hj(), "split": split, "step": i}));
+                            failed = true;
+                            break;
+                        }
                     }
-                    Err(p) => {
-                        report_panic(rep, "C18", &p, json!({"history": hj(), "split": split, "step": i}));
-                        failed = true;
-                        break;
+                    if matches!(s, Step::Merge(_)) {
+                        merges += 1;
+                        if merges == split {
+                            a = Some(st.take_bundle());
+                        }
                     }
                 }
-                if matches!(s, Step::Merge(_)) {
-                    merges += 1;
-                    if merges == split {
-                        a = Some(st.take_bundle());
-                    }
+                if failed {
+                    return;
                 }
-            }
-            if failed {
-                return;
-            }
-            let b = st.take_bundle();
-            let mut joined = a.clone().unwrap();
+                (a.unwrap(), st.take_bundle())
+            };
+            let mut joined = a.clone();
             if let Err(p) = guarded(|| joined.extend(b.clone())) {
-                report_panic(rep, "C18", &p, json!({"history": hj(), "split": split}));
+                report_panic(rep, "C18", &p, json!({"history": hj(), "split": split, "mode": mode}));
                 return;
             }
-            rep.count("split_points_checked");
+            rep.count(&format!("split_points_checked/{mode}"));
+            if std::env::var("VERIF_DEBUG").is_ok() {
+                for (nm, bb) in [("A", &a), ("B", &b), ("J", &joined), ("M", mono)] {
+                    for (ad, acc) in bb.state.iter() {
+                        if !acc.storage.is_empty() || acc.was_destroyed() {
+                            eprintln!("split {split} {mode} {nm}  {} status {:?} storage {:?}", addr_hex(ad), acc.status, acc.storage);
+                        }
+                    }
+                }
+            }
+            // a State that keeps running after take_bundle keeps its cache statuses: an account
+            // destroyed before the cut still says "destroyed" in the bundle taken later
+            let sigmode = |p: &Plain, want: &Plain| -> String {
+                if mode == "separate-states" {
+                    String::new()
+                } else {
+                    let destroyed_before_cut = p.diff_addr(want).is_some_and(|x| a.state.get(&x).is_some_and(|acc| acc.was_destroyed()));
+                    if destroyed_before_cut { "/one-state-continued/account-destroyed-before-take_bundle".to_string() } else { "/one-state-continued".to_string() }
+                }
+            };
             // same changeset application
+            let mut bad = false;
             for (known, kn) in [(OriginalValuesKnown::Yes, "known"), (OriginalValuesKnown::No, "not-known")] {
                 let mut p = s0.clone();
                 let mut codes = refrun.codes.clone();
                 apply_changeset(&mut p, &mut codes, &joined.to_plain_state(known));
                 if let Some(d) = p.diff(&sn) {
-                    rep.violation(format!("C18/extend/changeset-differs/{kn}/{}", p.diff_kind(&sn)), format!("split after group {split}: S_0 + (A.extend(B)).changeset vs post: {d}"), json!({"history": hj(), "split": split}));
-                    return;
+                    rep.violation(format!("C18/extend/changeset-differs/{kn}/{}{}", p.diff_kind(&sn), sigmode(&p, &sn)), format!("split after group {split} ({mode}): S_0 + (A.extend(B)).changeset vs post: {d}"), json!({"history": hj(), "split": split, "mode": mode}));
+                    bad = true;
+                    break;
                 }
+            }
+            if bad {
+                continue;
             }
             // same per-block pre-values: revert walk
             let reverts = joined.reverts.to_plain_state_reverts();
             if reverts.accounts.len() != n_groups {
-                rep.violation("C18/extend/number-of-revert-groups", format!("joined bundle has {} revert groups, monolithic {}", reverts.accounts.len(), n_groups), json!({"history": hj(), "split": split}));
+                rep.violation("C18/extend/number-of-revert-groups", format!("joined bundle has {} revert groups, monolithic {}", reverts.accounts.len(), n_groups), json!({"history": hj(), "split": split, "mode": mode}));
                 return;
             }
             let mut cur = snaps[n_groups].clone();
             for g in (0..n_groups).rev() {
                 apply_revert_group(&mut cur, &s0, &refrun.codes, &reverts, g);
                 if let Some(d) = cur.diff(&snaps[g]) {
-                    rep.violation(format!("C18/extend/revert-walk-differs/{}", cur.diff_kind(&snaps[g])), format!("split after group {split}: group {} of joined bundle does not restore S_{}: {d}", g + 1, g), json!({"history": hj(), "split": split, "group": g}));
-                    return;
+                    rep.violation(format!("C18/extend/revert-walk-differs/{}{}", cur.diff_kind(&snaps[g]), sigmode(&cur, &snaps[g])), format!("split after group {split} ({mode}): group {} of joined bundle does not restore S_{}: {d}", g + 1, g), json!({"history": hj(), "split": split, "group": g, "mode": mode}));
+                    bad = true;
+                    break;
                 }
+            }
+            if bad {
+                continue;
+            }
+            if mode != "separate-states" {
+                continue;
             }
             // take_n_reverts
             for k in [0usize, 1, split, n_groups, n_groups + 1] {
@@ -364,7 +443,7 @@ pub fn check_history(h: &History, rep: &mut Report, which: &str) {
                 }
             }
             // prepend_state: newer values win
-            let a_b = a.clone().unwrap();
+            let a_b = a.clone();
             let mut newer = b.clone();
             if let Err(p) = guarded(|| newer.prepend_state(a_b.clone())) {
                 report_panic(rep, "C18", &p, json!({"history": hj(), "split": split, "op": "prepend_state"}));
@@ -393,6 +472,7 @@ pub fn check_history(h: &History, rep: &mut Report, which: &str) {
             }
             // observation (not a criterion): what happens to the reverts
             rep.cell("observation_prepend_state_reverts", if newer.reverts.len() == a_b.reverts.len() { "ends-with-older-bundles-reverts" } else if newer.reverts.len() == b.reverts.len() { "keeps-newer-reverts" } else { "other" });
+          }
         }
     }
 }
@@ -549,7 +629,7 @@ pub fn run(ctx: &Ctx) -> i32 {
                 }
             }
             "C18" => {
-                for k in ["split_points_checked", "take_n_reverts_checked", "prepend_state_checked"] {
+                for k in ["split_points_checked/separate-states", "split_points_checked/one-state-continued", "take_n_reverts_checked", "prepend_state_checked"] {
                     let have = rep.counter(k);
                     rep.floor(k, have, 100);
                 }
